@@ -163,6 +163,15 @@ func (m *Mode) projD(sel []fedcat.FSel, o string) Val {
 	vs := make([]Val, len(sel))
 	for i, s := range sel {
 		dv := m.dataOrDerived(o, s.Name)
+		if dv.T == "fn" { // a required field with literal arguments
+			a := fedcat.Absent
+			for _, x := range s.Args {
+				if x.Name == dv.A {
+					a = (&ctxt{}).valOf(x.Val)
+				}
+			}
+			dv = applyFn(dv, a)
+		}
 		if len(s.Sel) == 0 {
 			vs[i] = dv
 		} else {
